@@ -3,6 +3,7 @@
 //! Case k depends on (seed, workload, k) only, so any case can be replayed alone.
 
 mod ctx;
+#[cfg(feature = "cli")]
 mod p_cli;
 mod p_filters;
 mod p_history;
@@ -10,6 +11,9 @@ mod p_kytea;
 mod p_model;
 mod p_score;
 mod p_sentence;
+mod p_threads;
+mod p_unsafe;
+#[cfg(feature = "train")]
 mod p_train;
 mod sut;
 
@@ -31,6 +35,7 @@ fn main() {
     let mut bins = String::new();
     let mut scratch = String::new();
     let mut tiny = false;
+    let mut threads = 8usize;
     let mut i = 2;
     while i < args.len() {
         let a = args[i].as_str();
@@ -44,6 +49,7 @@ fn main() {
             "--tier" => tier = v,
             "--bins" => bins = v,
             "--scratch" => scratch = v,
+            "--threads" => threads = v.parse().expect("threads"),
             "--tiny" => {
                 tiny = true;
                 i += 1;
@@ -71,15 +77,25 @@ fn main() {
         "C15" => p_filters::run_c15(&mut ctx, from, to),
         "C16n" => p_filters::run_c16n(&mut ctx, from, to),
         "C16s" => p_filters::run_c16s(&mut ctx, from, to),
+        #[cfg(feature = "train")]
         "C09" => p_train::run_c09(&mut ctx, from, to),
+        #[cfg(feature = "train")]
         "C10" => p_train::run_c10(&mut ctx, from, to),
+        #[cfg(feature = "train")]
         "C11" => p_train::run_c11(&mut ctx, from, to),
+        #[cfg(feature = "train")]
         "C12" => p_train::run_c12(&mut ctx, from, to),
         "C17" => p_kytea::run_c17(&mut ctx, from, to),
+        #[cfg(feature = "cli")]
         "C19tool" => p_cli::run_c19tool(&mut ctx, from, to),
+        #[cfg(feature = "cli")]
         "C20p" => p_cli::run_c20p(&mut ctx, from, to),
+        #[cfg(feature = "cli")]
         "C20e" => p_cli::run_c20e(&mut ctx, from, to),
+        #[cfg(feature = "train")]
         "C11cli" => p_cli::run_c11cli(&mut ctx, from, to),
+        "C08t" => p_threads::run_c08t(&mut ctx, from, to, tiny, threads),
+        "C18u" => p_unsafe::run_c18u(&mut ctx, from, to, tiny),
         "C02x" => p_sentence::run_c02x(&mut ctx, from, to),
         "C02r" => p_sentence::run_c02r(&mut ctx, from, to),
         "C03" => p_sentence::run_c03(&mut ctx, from, to),
